@@ -36,6 +36,8 @@ def w_tdmd(ctx, rng, idx):
         r = int(rng.integers(1, min(N, m) + 1))
         B = rng.standard_normal((N, r))
         lam = rng.uniform(0.3, 1.2, size=r) * np.sign(rng.standard_normal(r))
+        if r > 1 and rng.random() < 0.25:  # one very strongly damped mode: a non-zero eigenvalue 1e-11..1e-8.5 times the largest
+            lam[int(rng.integers(0, r))] = float(10 ** rng.uniform(-11, -8.5)) * (1 if rng.random() < 0.5 else -1)
         Z = np.stack([B @ (lam ** k * rng.standard_normal(r) ** 0) for k in range(m + 1)], axis=1)
         Z = B @ np.stack([lam ** k for k in range(m + 1)], axis=1) * 1.0
         thr = 1e-10
